@@ -25,7 +25,8 @@ PROPERTY = {
                  "toolchain on every run and over same-size content mutations of them",
     "explanation": "For every ELF of the family (gcc -O0/-O2/-g, executables PIE, non-PIE and static-pie, shared objects, "
                    "relocatable objects, 64- and 32-bit, and clang cross-target objects of both byte orders, from generated C sources with globals, statics, arrays, "
-                   "function pointers, string literals and external calls): (1) bytes(ELF(raw)) == raw; (2) for a section of the "
+                   "function pointers, string literals and external calls): (1) bytes(ELF(raw)) == raw; (2) after every section is given its own content again through the loader API the file serialises to the "
+                   "same bytes and re-parses to the same structures; (3) for a section of the "
                    "file (.data / .rodata / .text / .comment...) whose content is replaced by other bytes of the same length "
                    "through the loader API, e2 = ELF(bytes(e1)) has the same section headers (name, type, flags, address, "
                    "offset, size, link, info, alignment, entry size), the same program headers, the same symbols (name, value, "
@@ -169,6 +170,25 @@ def check_file(raw, seed):
         return "bytes(ELF(raw)) differs from raw at offset %#x (lengths %d / %d)" % (i, len(out), len(raw))
     base = view(e)
     rng = random.Random(seed)
+    # the smallest content change that keeps sizes: every section is given its own content again (tables are re-parsed from it)
+    e1 = ELF(raw)
+    for idx, s in enumerate(e1.sh):
+        if idx == 0:
+            continue
+        try:
+            s.content = bytes(s.content)
+        except Exception as ex:     # noqa
+            return "giving section %s its own content again raises %s: %s" % (name_of(s.sh.name), type(ex).__name__, str(ex)[:200])
+    try:
+        raw1 = bytes(e1)
+        v1 = view(ELF(raw1))
+    except Exception as ex:     # noqa
+        return "after giving every section its own content again, serialising / parsing raises %s: %s" % (type(ex).__name__, str(ex)[:200])
+    d = first_diff(base, v1)
+    if d:
+        return "after giving every section its own content again: %s" % d
+    if raw1 != raw:
+        return "after giving every section its own content again the serialised file differs from the original"
     for idx, s in enumerate(e.sh):
         nm = s.sh.name
         if nm not in MUTABLE or s.sh.type == elf_csts.SHT_NOBITS or s.sh.size == 0:
